@@ -124,126 +124,139 @@ func runC19(c *fw.Ctx) {
 					for m2, t2 := range tagSets {
 						for _, hoist := range []bool{false, true} {
 							for _, declAfter := range []bool{false, true} {
-								for undeclaredAt := 0; undeclaredAt <= 4; undeclaredAt++ {
-									undeclared := undeclaredAt != 0
-									if hoist && (paren || proto == "rpc") {
-										continue
-									}
-									t1, t2, urlTags := t1, t2, urlTags
-									switch undeclaredAt {
-									case 2: // after the names of the first method's list
-										if t1 == nil {
+								for _, undeclName := range []string{"@undeclared", "@top", "@first"} {
+									for undeclaredAt := 0; undeclaredAt <= 4; undeclaredAt++ {
+										// the name that no TAG declares: a name nobody knows, or the automatic tag of
+										// another interaction of the document (written later / earlier than the use)
+										if undeclaredAt == 0 && undeclName != "@undeclared" {
 											continue
 										}
-										t1 = append(append([]string{}, t1...), "@undeclared")
-									case 3: // before the names of the second method's list
-										if t2 == nil {
+										undeclared := undeclaredAt != 0
+										if hoist && (paren || proto == "rpc") {
 											continue
 										}
-										t2 = append([]string{"@undeclared"}, t2...)
-									case 4: // in the middle of a URL-level list that some method falls back to
-										if len(urlTags) < 2 || (t1 != nil && t2 != nil) {
+										t1, t2, urlTags := t1, t2, urlTags
+										switch undeclaredAt {
+										case 2: // after the names of the first method's list
+											if t1 == nil {
+												continue
+											}
+											t1 = append(append([]string{}, t1...), undeclName)
+										case 3: // before the names of the second method's list
+											if t2 == nil {
+												continue
+											}
+											t2 = append([]string{undeclName}, t2...)
+										case 4: // in the middle of a URL-level list that some method falls back to
+											if len(urlTags) < 2 || (t1 != nil && t2 != nil) {
+												continue
+											}
+											urlTags = append([]string{urlTags[0], undeclName}, urlTags[1:]...)
+										}
+										if !c.Next() {
 											continue
 										}
-										urlTags = append([]string{urlTags[0], "@undeclared"}, urlTags[1:]...)
-									}
-									if !c.Next() {
-										continue
-									}
-									c.Count("evaluations", 1)
-									n := doc.N
-									url := n("URL", "/u/{id}")
-									url.Paren = paren
-									var exp []expI
-									pick := func(own []string, auto string) []string {
-										if own != nil {
-											return own
+										c.Count("evaluations", 1)
+										n := doc.N
+										url := n("URL", "/u/{id}")
+										url.Paren = paren
+										var exp []expI
+										pick := func(own []string, auto string) []string {
+											if own != nil {
+												return own
+											}
+											if urlTags != nil {
+												return urlTags
+											}
+											return []string{auto}
 										}
 										if urlTags != nil {
-											return urlTags
+											url.Kids = append(url.Kids, n("Tags", urlTags...))
 										}
-										return []string{auto}
-									}
-									if urlTags != nil {
-										url.Kids = append(url.Kids, n("Tags", urlTags...))
-									}
-									if proto == "http" {
-										a := n("GET").WithKids(n("200", "any"))
-										b := n("POST").WithKids(n("201", "empty"))
-										if t1 != nil {
-											a.Kids = append([]*doc.Node{n("Tags", t1...)}, a.Kids...)
+										if proto == "http" {
+											a := n("GET").WithKids(n("200", "any"))
+											b := n("POST").WithKids(n("201", "empty"))
+											if t1 != nil {
+												a.Kids = append([]*doc.Node{n("Tags", t1...)}, a.Kids...)
+											}
+											if t2 != nil {
+												b.Kids = append(b.Kids, n("Tags", t2...))
+											}
+											url.Kids = append(url.Kids, a, b)
+											exp = append(exp, expI{"http GET /u/{id}", pick(t1, "@u")}, expI{"http POST /u/{id}", pick(t2, "@u")})
+										} else {
+											a := n("Method", "ma")
+											b := n("Method", "mb").WithKids(n("Params").WithBody("{}"))
+											if t1 != nil {
+												a.Kids = append(a.Kids, n("Tags", t1...))
+											}
+											if t2 != nil {
+												b.Kids = append([]*doc.Node{n("Tags", t2...)}, b.Kids...)
+											}
+											url.Kids = append(url.Kids, n("Protocol", "json-rpc-2.0"), a, b)
+											exp = append(exp, expI{"json-rpc-2.0 ma /u/{id}", pick(t1, "@u")}, expI{"json-rpc-2.0 mb /u/{id}", pick(t2, "@u")})
 										}
-										if t2 != nil {
-											b.Kids = append(b.Kids, n("Tags", t2...))
+										nodes := []*doc.Node{doc.Jsight()}
+										if undeclared && undeclName == "@first" {
+											nodes = append(nodes, n("GET", "/first").WithParen().WithKids(n("200", "any")))
 										}
-										url.Kids = append(url.Kids, a, b)
-										exp = append(exp, expI{"http GET /u/{id}", pick(t1, "@u")}, expI{"http POST /u/{id}", pick(t2, "@u")})
-									} else {
-										a := n("Method", "ma")
-										b := n("Method", "mb").WithKids(n("Params").WithBody("{}"))
-										if t1 != nil {
-											a.Kids = append(a.Kids, n("Tags", t1...))
+										decl := []*doc.Node{n("TAG", "@g").WithAnn("Group G"), n("TAG", "@k").WithKids(n("Description").WithBody("about k"))}
+										if !declAfter {
+											nodes = append(nodes, decl...)
 										}
-										if t2 != nil {
-											b.Kids = append([]*doc.Node{n("Tags", t2...)}, b.Kids...)
+										nodes = append(nodes, url)
+										if hoist {
+											// a path-bearing method right after the implicit URL block is a top-level interaction
+											h := n("DELETE", "/other/x").WithKids(n("204", "empty"))
+											url.Kids = append(url.Kids, h)
+											exp = append(exp, expI{"http DELETE /other/x", []string{"@other"}})
 										}
-										url.Kids = append(url.Kids, n("Protocol", "json-rpc-2.0"), a, b)
-										exp = append(exp, expI{"json-rpc-2.0 ma /u/{id}", pick(t1, "@u")}, expI{"json-rpc-2.0 mb /u/{id}", pick(t2, "@u")})
-									}
-									nodes := []*doc.Node{doc.Jsight()}
-									decl := []*doc.Node{n("TAG", "@g").WithAnn("Group G"), n("TAG", "@k").WithKids(n("Description").WithBody("about k"))}
-									if !declAfter {
-										nodes = append(nodes, decl...)
-									}
-									nodes = append(nodes, url)
-									if hoist {
-										// a path-bearing method right after the implicit URL block is a top-level interaction
-										h := n("DELETE", "/other/x").WithKids(n("204", "empty"))
-										url.Kids = append(url.Kids, h)
-										exp = append(exp, expI{"http DELETE /other/x", []string{"@other"}})
-									}
-									top := n("PUT", "/top").WithKids(n("200", "any"))
-									if m1%3 == 1 {
-										top.Kids = append(top.Kids, n("Tags", "@k"))
-										exp = append(exp, expI{"http PUT /top", []string{"@k"}})
-									} else {
-										exp = append(exp, expI{"http PUT /top", []string{"@top"}})
-									}
-									nodes = append(nodes, top)
-									if undeclaredAt == 1 {
-										bad := n("PATCH", "/bad").WithKids(n("Tags", "@undeclared"), n("200", "any"))
-										nodes = append(nodes, bad)
-									}
-									if declAfter {
-										nodes = append(nodes, decl...)
-									}
-									text := doc.Text(nodes)
-									label := fmt.Sprintf("proto=%s paren=%v url=%d m1=%d m2=%d hoist=%v after=%v undeclared=%d", proto, paren, ui, m1, m2, hoist, declAfter, undeclaredAt)
-									c.Describe(label)
-									c.Distinct(text)
-									o := drv.RunMem("root.jst", text, opt)
-									if o.Crashed() {
-										c.Count("skipped_crash", 1)
-										continue
-									}
-									if undeclared {
-										if !o.Rejected() {
-											c.Violate("undeclared-tag-accepted", "C19:undeclared", label+": a Tags directive naming an undeclared tag is "+o.Short(), map[string]interface{}{"text": text})
+										top := n("PUT", "/top").WithKids(n("200", "any"))
+										if m1%3 == 1 {
+											top.Kids = append(top.Kids, n("Tags", "@k"))
+											exp = append(exp, expI{"http PUT /top", []string{"@k"}})
+										} else {
+											exp = append(exp, expI{"http PUT /top", []string{"@top"}})
 										}
-										continue
-									}
-									if !o.OK() {
-										// the property speaks about the tags of interactions of accepted documents; a
-										// rejection (e.g. URL-level Tags next to Protocol) is not judged, only counted
-										c.Count("documents_rejected_not_judged", 1)
-										c.Sample("rejected (not judged)", 1, map[string]interface{}{"label": label, "diagnostic": o.Short()})
-										continue
-									}
-									c.Count("documents_accepted_and_compared", 1)
-									if bad := checkTags(o.JSON, exp, map[string]string{"@g": "Group G", "@k": "@k"}); bad != "" {
-										c.Violate("tags-wrong", "C19:tags:"+firstWordsN(bad, 2), label+": "+bad, map[string]interface{}{"text": text})
-									} else {
-										c.Sample("tags "+proto, 2, map[string]interface{}{"label": label, "text": text})
+										nodes = append(nodes, top)
+										if undeclaredAt == 1 {
+											bad := n("PATCH", "/bad").WithKids(n("Tags", undeclName), n("200", "any"))
+											nodes = append(nodes, bad)
+										}
+										if declAfter {
+											nodes = append(nodes, decl...)
+										}
+										text := doc.Text(nodes)
+										label := fmt.Sprintf("proto=%s paren=%v url=%d m1=%d m2=%d hoist=%v after=%v undeclared=%d", proto, paren, ui, m1, m2, hoist, declAfter, undeclaredAt)
+										if undeclared {
+											label += " name=" + undeclName
+										}
+										c.Describe(label)
+										c.Distinct(text)
+										o := drv.RunMem("root.jst", text, opt)
+										if o.Crashed() {
+											c.Count("skipped_crash", 1)
+											continue
+										}
+										if undeclared {
+											if !o.Rejected() {
+												c.Violate("undeclared-tag-accepted", "C19:undeclared", label+": a Tags directive naming an undeclared tag is "+o.Short(), map[string]interface{}{"text": text})
+											}
+											continue
+										}
+										if !o.OK() {
+											// the property speaks about the tags of interactions of accepted documents; a
+											// rejection (e.g. URL-level Tags next to Protocol) is not judged, only counted
+											c.Count("documents_rejected_not_judged", 1)
+											c.Sample("rejected (not judged)", 1, map[string]interface{}{"label": label, "diagnostic": o.Short()})
+											continue
+										}
+										c.Count("documents_accepted_and_compared", 1)
+										if bad := checkTags(o.JSON, exp, map[string]string{"@g": "Group G", "@k": "@k"}); bad != "" {
+											c.Violate("tags-wrong", "C19:tags:"+firstWordsN(bad, 2), label+": "+bad, map[string]interface{}{"text": text})
+										} else {
+											c.Sample("tags "+proto, 2, map[string]interface{}{"label": label, "text": text})
+										}
 									}
 								}
 							}
